@@ -1,6 +1,7 @@
 SPECIFICATION Spec
 INVARIANT NoRaise
 INVARIANT ArgUnchanged
+INVARIANT SecondCallSame
 INVARIANT NoneIffNoValid
 INVARIANT SolutionsOK
 INVARIANT NoDuplicates
